@@ -32,7 +32,7 @@ class CodePackage(object):
         self.size = size
         self.additional_needs_resolution = additional_needs_resolution
         self.post_byte_choices = post_byte_choices
-        self.max_size = max_size
+        self.max_size = max(max_size, size)
 
 
 class Mode(NamedTuple):
